@@ -2115,7 +2115,9 @@ theorem fieldLoop_view (fuel : Nat) (s : Srv) (st : Strm) (bs eh : Bool) (fp : N
       | needMore =>
         simp only [fieldLoop, loopFields, hd] at hn ⊢
         cases eh
-        · rfl
+        · cases hh : heldTooLong s.cfg (Hpack.Dec.skipUpdates s.dec bs fp (c :: cs)).2
+          · simp; rfl
+          · simp [hh] at hn
         · simp at hn
       | err => simp [fieldLoop, hd] at hn
       | ok dec fo rest =>
